@@ -64,7 +64,9 @@ def message(draw: Any, limit: int) -> Dict[str, Any]:
         "kind": kind, "payload": payload,
         "cuts": draw(st.lists(st.integers(1, max(1, wire_len)), min_size=ncuts, max_size=ncuts)),
         "compress": draw(st.booleans()),
-        "pings": draw(st.lists(st.text(alphabet="pq0", max_size=5), max_size=2)),
+        # (control frames carry 0..125 bytes: both ends of the range are produced)
+        "pings": draw(st.lists(st.one_of(st.text(alphabet="pq0", max_size=5), st.just(""),
+                                         st.just("p" * 125)), max_size=2)),
     }
 
 
@@ -83,6 +85,7 @@ def case_strategy(draw: Any, carrier: str) -> Dict[str, Any]:
                       st.sampled_from([0, 1, 10, 300, 70000]), st.integers(0, 255))),
             max_size=3)),
         "client_close": draw(st.sampled_from([1000, 1000, 3001, None])),
+        "bytes_as": draw(st.sampled_from(["bytes", "bytes", "bytearray", "memoryview"])),
         # another WebSocket connection of the same worker, opened first and still open: what it
         # negotiated (compression) and exchanged must not leak into this one
         "prelude": draw(st.sampled_from([None, None, {"deflate": True}, {"deflate": False}])),
@@ -105,6 +108,7 @@ def app_program(case: Dict[str, Any]) -> list:
             msg["text"] = am["text"]
         else:
             msg["bytes"] = am["bytes"]
+            msg["$body_as"] = case.get("bytes_as", "bytes")
         prog.append(["send", msg])
     prog.append(["ws_loop", {"echo": case["app"] == "echo"}])
     return prog
